@@ -46,6 +46,7 @@ def main(argv=None):
     if pid not in CHECKS:
         print(f"unknown check {pid}; have {sorted(CHECKS)}", file=sys.stderr)
         return 2
+    chk = None
     try:
         common.setup_repo_imports()
         mod = importlib.import_module(CHECKS[pid])
@@ -56,6 +57,9 @@ def main(argv=None):
         return chk.finish()
     except common.MachineryError as e:
         print(f"MACHINERY-ERROR {pid}: {e}", file=sys.stderr)
+        if chk is not None and chk.violation_count > 0:
+            chk.notes["machinery_error_after_violation"] = str(e)[:500]
+            return chk.finish()  # a violation was already established; report it
         return 2
     except Exception:
         traceback.print_exc()
